@@ -169,6 +169,20 @@ def run(ctx):
     distinct |= set(timed_ops)
     ctx.cov["timed_distribution"] = {k: v for k, v in tstats["counters"].items() if k.startswith("timed.")}
     ctx.cov["op_kinds"] = kinds
+    # generator floors: an input class that stops being generated must not go unnoticed
+    allc = dict(stats["counters"]); allc.update(fstats["counters"]); allc.update(tstats["counters"])
+    allc["hello.big.*"] = sum(v for k, v in stats["counters"].items() if k.startswith("hello.big."))
+    floors = {"hello.big.*": 40, "http.cut_in_two": 150, "quic.compacted_then_reused": 25, "quic.version.v2": 40,
+              "quic.version.draft29": 15, "quic.version.grease_version": 15, "quic.corrupt": 30, "quic.coalesced": 30,
+              "tcp.data_with_eof_or_reset": 400, "tcp.read_size.1": 100, "tcp.stall_inserted": 100, "tcp.tail.rst": 100,
+              "timed.answer.timeout": 60, "timed.trickle": 25, "timed.gap_near_deadline": 25, "timed.eof_after_part": 25,
+              "timed.drain.async": 10, "flow.two_connections": 30, "flow.short_header_between": 8, "flow.with_noise_flows": 30,
+              "hello.two_sni_exts": 20, "hello.empty_last_ext": 40, "replay.short_sni_ext": 4}
+    low = {k: (allc.get(k, 0), f) for k, f in floors.items() if allc.get(k, 0) < f}
+    ctx.cov["generator_floors"] = floors
+    if low:
+        ctx.say("GENERATOR-FLOOR not reached (have, floor):", low)
+        return 2
     ctx.assumptions = [
         "one ClientHello per TLS record (hellos fragmented over several records are out of the sniffer's scope)",
         "generated inputs (seeded): hellos <= ~4 KB, <= 4 QUIC packets / datagrams per flight, stream scripts <= ~70 reads",
